@@ -69,7 +69,7 @@ type c02Spelling struct {
 }
 
 // observe runs one argument vector and renders the complete outcome.
-var c02WarmUp bool // per leaf: the parser has parsed [sync -<short>] before (same for every spelling that is compared)
+var c02WarmUp bool // per leaf: the parser has parsed [sync -<short> -<short><short>] before (same for every spelling that is compared)
 
 func c02Observe(cd *c02Decl, argv []string) (string, interface{}) {
 	b := cd.d.BuildTags()
@@ -77,7 +77,7 @@ func c02Observe(cd *c02Decl, argv []string) (string, interface{}) {
 		return "setup-error:" + b.Err.Error(), nil
 	}
 	if c02WarmUp && cd.x != nil {
-		if wr := runParser(b, &ref.Config{D: cd.d}, []string{"sync", "-" + cd.x.Short}, runOpts{}); wr.Err != nil || wr.Panic != nil {
+		if wr := runParser(b, &ref.Config{D: cd.d}, []string{"sync", "-" + cd.x.Short, "-" + cd.x.Short + cd.x.Short}, runOpts{}); wr.Err != nil || wr.Panic != nil {
 			return fmt.Sprint("warm-up-failed:", wr.Err, wr.Panic), nil
 		}
 		rezero(b)
@@ -237,12 +237,12 @@ func init() {
 		Level:      "exploration",
 		ShardDepth: 6,
 		Body:       body,
-		Rule: "option types {string, int, float64, []string, map[string]string, func(string), int base 16, []int, []*int, a bool-kinded Unmarshaler, time.Duration} (a flag with the digit short name -4 is declared next to it) x short name {x, é (2 bytes), € (3 bytes)} x optional-argument {no, yes} x PassDoubleDash {off, on} x context {alone, between two other options, before a plain word} x {fresh parser, parser that parsed [sync -x] before, where sync declares the same short letter as a flag} " +
+		Rule: "option types {string, int, float64, []string, map[string]string, func(string), int base 16, []int, []*int, a bool-kinded Unmarshaler, time.Duration} (a flag with the digit short name -4 is declared next to it) x short name {x, é (2 bytes), € (3 bytes)} x optional-argument {no, yes} x PassDoubleDash {off, on} x context {alone, between two other options, before a plain word} x {fresh parser, parser that parsed [sync -x -xx] before, where sync declares the same short letter as a flag} " +
 			"x value V in every string of length <= 3 (quick) / <= 4 (thorough) over {v = - . 5 0 \" \\ é : space f I} plus 33 hand-picked values (negative numbers in three notations, --, option-looking words, bytes that are not valid UTF-8, back-quoted text); in the simplest cell also with the option declared in a plain group inside a namespaced group (long name --db.name); for each cell all admissible spellings among " +
 			"{-xV, -x=V, -x V, --name=V, --name V} x {V, V as a double-quoted Go literal} are parsed and must give one identical outcome (all values, callback log, remaining arguments, error type); " +
-			"plus a string option handed over with (*Group).AddOption (5 values x all spellings, plain and quoted); plus every flag cluster of <= 4 over {a (bool), b ([]bool), é (func())} and every cluster ending in an argument-taking option (x or é) against its separated form; distinct = distinct (type, short, outcome)",
+			"plus a string option and an int option handed over with (*Group).AddOption (5 values each, negative numerals for the int, x all spellings, plain and quoted); plus every flag cluster of <= 4 over {a (bool), b ([]bool), é (func())} and every cluster ending in an argument-taking option (x or é) against its separated form; distinct = distinct (type, short, outcome)",
 		Assumptions:  []string{"separate-token form demanded only where the statement allows it: not for optional-argument options, not when V has option syntax unless V is a clear numeral of the signed numeric option's own type and base, not for -- under PassDoubleDash", "-xV not demanded when V is empty or starts with '='"},
-		RequiredHits: []string{"agreeing-success", "agreeing-error", "spellings=10", "cluster-compared", "cluster-with-argument"},
+		RequiredHits: []string{"agreeing-success", "agreeing-error", "spellings=10", "cluster-compared", "cluster-with-argument", "added-option-spellings", "added-int-negative-accepted"},
 		Bound:        [2]string{"values <= 3 characters", "values <= 4 characters"},
 		BudgetS:      [2]int{170, 1500},
 	})
@@ -340,7 +340,11 @@ func c02Clusters(c *explore.Ctx) {
 
 // c02Added: an option handed to the library with (*Group).AddOption is spelled like any other.
 func c02Added(c *explore.Ctx) {
+	numeric := c.Bool() // the added option is an int (a negative numeral is then admissible as a separate token)
 	vals := []string{"v", "a b", "", "x=y", "é"}
+	if numeric {
+		vals = []string{"5", "-5", "-07", "0", "x"}
+	}
 	V := vals[c.Choose(len(vals))]
 	Q := strconv.Quote(V)
 	forms := [][]string{{"--added=" + V}, {"--added", V}, {"-A=" + V}, {"-A", V}, {"--added=" + Q}, {"--added", Q}, {"-A=" + Q}, {"-A" + Q}}
@@ -348,7 +352,7 @@ func c02Added(c *explore.Ctx) {
 		forms = append(forms, []string{"-A" + V})
 	}
 	c.Describe(func() interface{} {
-		return map[string]interface{}{"part": "option added with AddOption", "V": V}
+		return map[string]interface{}{"part": "option added with AddOption", "V": V, "int_option": numeric}
 	})
 	first := ""
 	for i, f := range forms {
@@ -360,7 +364,12 @@ func c02Added(c *explore.Ctx) {
 		}
 		p := flags.NewParser(&base, flags.None)
 		var s string
-		p.Command.Group.Find("Application Options").AddOption(&flags.Option{LongName: "added", ShortName: 'A'}, &s)
+		var n int
+		if numeric {
+			p.Command.Group.Find("Application Options").AddOption(&flags.Option{LongName: "added", ShortName: 'A'}, &n)
+		} else {
+			p.Command.Group.Find("Application Options").AddOption(&flags.Option{LongName: "added", ShortName: 'A'}, &s)
+		}
 		obs := ""
 		func() {
 			defer func() {
@@ -369,7 +378,11 @@ func c02Added(c *explore.Ctx) {
 				}
 			}()
 			rest, err := p.ParseArgs(f)
-			obs = fmt.Sprintf("%s|%q|%q", errType(err), s, rest)
+			if err != nil {
+				obs = "error:" + errType(err) // what is handed back beside an error is not part of the statement
+			} else {
+				obs = fmt.Sprintf("ok|%q|%d|%q", s, n, rest)
+			}
 		}()
 		if strings.HasPrefix(obs, "panic") {
 			c.Fail("panic|added-option", obs)
@@ -381,9 +394,16 @@ func c02Added(c *explore.Ctx) {
 			continue
 		}
 		if obs != first {
-			c.Fail("pair=added-option|"+c02ValueClass(V, ""), map[string]interface{}{"argv_a": forms[0], "outcome_a": first, "argv_b": f, "outcome_b": obs})
+			kind := "string"
+			if numeric {
+				kind = "int"
+			}
+			c.Fail("pair=added-option|"+kind+"|"+c02ValueClass(V, ""), map[string]interface{}{"argv_a": forms[0], "outcome_a": first, "argv_b": f, "outcome_b": obs})
 			return
 		}
 	}
 	c.Hit("added-option-spellings")
+	if numeric && strings.HasPrefix(first, "ok") && strings.HasPrefix(V, "-") {
+		c.Hit("added-int-negative-accepted")
+	}
 }
